@@ -84,6 +84,8 @@ func rulesC10(r *Run) {
 	ruleFixVerdictStickyAll(r, "R3")
 	ruleFailedGroupNotPassed(r, "R3", smKey("BlockPostChecks"), "PostChecks")
 	ruleFailedGroupNotPassed(r, "R3", smKey("BlockDeferredChecks"), "DeferredChecks")
+	ruleTerminalGroupNotRerun(r, "R3", smKey("PlanPostChecks"), "PostChecks")
+	ruleTerminalGroupNotRerun(r, "R3", smKey("PlanDeferredChecks"), "DeferredChecks")
 	ruleSelfLoopMakesProgress(r, "R3")
 	ruleLaunchLoopPassesFinished(r, "R3")
 	ruleFixSeqVerdicts(r, "R3")
